@@ -179,6 +179,12 @@ func isNilErrorReturn(r *ssa.Return) bool {
 					return
 				}
 			}
+			// …or if every edge into the returning block is such an edge or, for the error of
+			// io.ReadFull / io.ReadAtLeast, the "short count" edge of a comparison of the same call's byte
+			// count (the library's contract: a count below the requested length comes with a non-nil error)
+			if nonNilOnEveryEdge(fn, root, r.Block(), 3) {
+				return
+			}
 			may = true
 		case *ssa.UnOp:
 			if g, ok := x.X.(*ssa.Global); ok && (strings.HasPrefix(g.Name(), "Err") || strings.HasPrefix(g.Name(), "err")) {
@@ -190,6 +196,65 @@ func isNilErrorReturn(r *ssa.Return) bool {
 		}
 	})
 	return may
+}
+
+// nonNilOnEveryEdge: see isNilErrorReturn.
+func nonNilOnEveryEdge(fn *ssa.Function, root ssa.Value, b *ssa.BasicBlock, depth int) bool {
+	ex, isEx := root.(*ssa.Extract)
+	var tuple *ssa.Call
+	if isEx {
+		tuple, _ = ex.Tuple.(*ssa.Call)
+	}
+	tests := nilTestsOf(fn, root)
+	if len(b.Preds) == 0 {
+		return false
+	}
+	for _, p := range b.Preds {
+		iff, ok := p.Instrs[len(p.Instrs)-1].(*ssa.If)
+		if !ok {
+			// a straight-line predecessor (logging): judge its own incoming edges
+			if len(p.Succs) == 1 && depth > 0 && nonNilOnEveryEdge(fn, root, p, depth-1) {
+				continue
+			}
+			return false
+		}
+		good := false
+		for _, t := range tests {
+			if t.If == iff && t.NonNil == b && t.NonNil != t.NilSucc {
+				good = true
+			}
+		}
+		if !good && tuple != nil && isCallAny(tuple, "io.ReadFull", "io.ReadAtLeast") {
+			if bo, isB := iff.Cond.(*ssa.BinOp); isB {
+				cnt, other := bo.X, bo.Y
+				if e0, isE := strip(cnt).(*ssa.Extract); !isE || e0.Tuple != ssa.Value(tuple) || e0.Index != 0 {
+					cnt, other = bo.Y, bo.X
+				}
+				if e0, isE := strip(cnt).(*ssa.Extract); isE && e0.Tuple == ssa.Value(tuple) && e0.Index == 0 {
+					isLen := false
+					for v := range backSlice(other).vals {
+						if cl, isC := v.(*ssa.Call); isC {
+							if bi, isBi := cl.Call.Value.(*ssa.Builtin); isBi && bi.Name() == "len" {
+								isLen = true
+							}
+						}
+					}
+					short := (bo.Op == token.NEQ || (bo.Op == token.LSS && cnt == bo.X) || (bo.Op == token.GTR && cnt == bo.Y))
+					if isLen && short && p.Succs[0] == b && p.Succs[0] != p.Succs[1] {
+						good = true
+					}
+					full := (bo.Op == token.EQL || (bo.Op == token.GEQ && cnt == bo.X) || (bo.Op == token.LEQ && cnt == bo.Y))
+					if isLen && full && p.Succs[1] == b && p.Succs[0] != p.Succs[1] {
+						good = true
+					}
+				}
+			}
+		}
+		if !good {
+			return false
+		}
+	}
+	return true
 }
 
 type ckptEvent struct {
